@@ -36,3 +36,15 @@ def nontrivial(case, result):
 def classify(case, result):
     t = case.split(" ")
     return f"{t[0]} {t[1]} {result.split(' ')[0]}"
+
+
+def equal(a, b):
+    """`some W H pitch len base rows`: the row pitch of a view with at most one row does not influence any row address;
+    a one-row view may normalise it (empty views already do). The pitch token is ignored when H <= 1 and everything else
+    agrees."""
+    if a == b:
+        return True
+    ta, tb = a.split(" "), b.split(" ")
+    if len(ta) == len(tb) and len(ta) >= 7 and ta[0] == tb[0] == "some" and ta[2] == tb[2] and ta[2] in ("0", "1"):
+        return ta[:3] + ta[4:] == tb[:3] + tb[4:]
+    return False
